@@ -95,8 +95,10 @@ func (s *CDCStreamer) CommitHook() bool {
 	default:
 		stats.Add(cdcDroppedEvents, 1)
 	}
+	// A single log entry can result in more than one commit, so keep its index.
 	s.pending = &command.CDCIndexedEventGroup{
 		Events: make([]*command.CDCEvent, 0),
+		Index:  s.pending.Index,
 	}
 	return true
 }
